@@ -96,13 +96,31 @@
    of their mark-to-market changes, up to the sum of their step counts.  No shows_account condition;
    an account shown as itself is the case srcs = [a].
 
-   NOT PROVED (decided on every run by evaluating mtm_row / within_bound on the binary's output and
-   by the byte-exact correspondence of the model):
+   THE EXPECTATION IS DEFINED (Proofs/MarkToMarketDefined.v): C03_held_price_every_day: if the balance
+   command succeeds then on EVERY date T every commodity other than V of which an asset/liability
+   account holds a non-zero quantity has a price in V from the declarations dated <= T (the run over
+   the days dated <= T is a prefix of the successful run; C03_held_has_price on that prefix; the
+   option-level link between the days' prices and ValuationSpec.price_on).  C03_expected_defined:
+   hence market_value, mtm_expected (every window start, every date) and every entry of mtm_row are
+   Some, for every asset/liability account with a valid name, whatever the mapping, the filters and
+   the window; C03_expected_defined_journal_accounts: for the accounts the runtime check visits
+   (al_accounts) the parser's guarantee is the only side condition.  The corner the definition of
+   market_value respects: C03_held_commodity_has_price_refuted -- a commodity booked only with
+   quantity zero is held, never priced, and the command succeeds; market_value skips it.
+
+   THE VERDICT ON AGGREGATED ROWS (Spec/ValuationMappedSpec.v, Proofs/MarkToMarketMappedVerdict.v):
+   C03_model_meets_spec_mapped: for every row b of asset/liability type, mtm_row_mapped (the sum over
+   sources_of of mtm_expected, within the sum of step_bound) exists, every entry carries an
+   expectation, and the model's row lies within the allowance.  Behind it C03_windowed_mapped_held
+   (each aggregated account charged for its own commodities only) and C03_unbooked_cell (the
+   instance "quantity zero, error zero" of the cell invariant: a cell without a booking of a
+   non-zero quantity receives no value).
+
+   NOT PROVED (decided on every run by evaluating mtm_row_mapped / within_bound on the binary's output
+   and by the byte-exact correspondence of the model):
    * the printed row: that the renderer's collapsed line of a valued row is the sum over the
      commodity keys of the node and the cumulative presentation over the columns (C02_row_cumulative
-     gives the latter per key); value_cell here is the sum of the tree's cells;
-   * that mtm_expected is Some whenever the run succeeds (C03_held_has_price gives it for the last
-     day of the run). *)
+     gives the latter per key); value_cell here is the sum of the tree's cells. *)
 From Coq Require Import ZArith QArith Qabs List Bool.
 From Knut Require Import Model.Str Model.Dec Model.Account Model.Ledger Model.Price Model.Journal Model.Check Model.Pipeline
      Spec.WellformedSpec Spec.MarkToMarketSpec Spec.PriceDaySpec
@@ -666,6 +684,178 @@ Example C03_example_mapped_row :
       = [57407409 # 50000000; 1748148183 # 1000000000; 4148148159 # 1000000000] /\
     map (fun col => steps_sum dl exr_V srcs W col [exr_c]) (end_dates part) = [2; 5; 7]%Z /\
     map (fun col => Qred (row_value exm_x part col r [exr_c])) (end_dates part) = [0; 0; 0]
+  | _, _ => False
+  end.
+Proof. vm_compute. repeat split; discriminate. Qed.
+
+(* ================================================================== the expectation is defined *)
+From Knut Require Import Proofs.MarkToMarketDefined.
+
+(* THE CONTRAPOSITIVE OF C03_missing_price_fails ON THE REPORT: if the balance command succeeds, then
+   on EVERY date T (not only the last day, C03_held_has_price) every commodity other than V of which
+   an asset/liability account holds a non-zero quantity (exact sum of the bookings dated <= T) has a
+   price in V from the declarations dated <= T.  The run over the days dated <= T is a prefix of the
+   successful run; a position that is open at the start of a day is revalued, which fails without
+   the day's price, and a booking of a non-zero quantity fails without the price of its day. *)
+Theorem C03_held_price_every_day : forall cfg ds r part V,
+  bc_valuation cfg = Some V ->
+  balance_report cfg ds = COk (r, part) ->
+  exists dl,
+    parse_directives ds = MOk dl /\
+    (postings_syntactic dl ->
+     forall a c T, account_ok a = true -> is_AL a = true -> c <> V ->
+       is_zero (ValuationSpec.qty_upto (flat_postings dl) a c T) = false ->
+       exists pr, ValuationSpec.price_on dl V c T = Some pr).
+Proof. exact held_price_report. Qed.
+Print Assumptions C03_held_price_every_day.
+
+(* A SUCCESSFUL RUN HAS EVERY PRICE THE CHECK'S EXPECTATION NEEDS: for every configuration with a
+   valuation commodity and every journal on which the balance command succeeds, every asset/liability
+   account with a valid name -- shown as itself or not, passing the filters or not, whatever the
+   window -- has a market value on every date, hence mtm_expected is Some for every window start and
+   column date, and every entry of mtm_row carries an expectation.  Together with
+   C03_model_meets_spec: the clause "nth_error exps j = Some (Some e, n)" there holds for every j. *)
+Theorem C03_expected_defined : forall cfg ds r part V,
+  bc_valuation cfg = Some V ->
+  balance_report cfg ds = COk (r, part) ->
+  exists dl,
+    parse_directives ds = MOk dl /\
+    (postings_syntactic dl ->
+     forall a, account_ok a = true -> is_AL a = true ->
+       (forall T, exists x, ValuationSpec.market_value dl V a T = Some x) /\
+       (forall W E, exists e, ValuationSpec.mtm_expected dl V a W E = Some e) /\
+       exists exps,
+         ValuationSpec.mtm_row cfg dl a = Some exps /\ length exps = length (end_dates part) /\
+         forall j eo n, nth_error exps j = Some (eo, n) -> exists e, eo = Some e).
+Proof. exact expected_defined. Qed.
+Print Assumptions C03_expected_defined.
+
+(* for the accounts the runtime check visits (ValuationSpec.al_accounts: the asset/liability accounts
+   of the journal's bookings) the parser's guarantee is the only side condition *)
+Theorem C03_expected_defined_journal_accounts : forall cfg ds r part V,
+  bc_valuation cfg = Some V ->
+  balance_report cfg ds = COk (r, part) ->
+  exists dl,
+    parse_directives ds = MOk dl /\
+    (postings_syntactic dl ->
+     forall a, In a (ValuationSpec.al_accounts dl) ->
+       exists exps,
+         ValuationSpec.mtm_row cfg dl a = Some exps /\ length exps = length (end_dates part) /\
+         forall j eo n, nth_error exps j = Some (eo, n) -> exists e, eo = Some e).
+Proof. exact expected_defined_accounts. Qed.
+Print Assumptions C03_expected_defined_journal_accounts.
+
+(* The corner that the definition of market_value has to respect (and does: it skips a commodity whose
+   quantity is zero): "every commodity among held_commodities has a price whenever the run succeeds"
+   is FALSE.  A booking of quantity zero asks Valuate for no price; the commodity is still among the
+   held commodities of the account.  Witness: the journal of C03_example_windowed_report with an
+   additional booking of 0 Z on 03-03, Z never priced.  The command succeeds, Z is held by Assets:B,
+   price_on is None on the last column date, and mtm_row is nevertheless defined in every column. *)
+Theorem C03_held_commodity_has_price_refuted :
+  exists cfg ds r part V dl a c T,
+    bc_valuation cfg = Some V /\ balance_report cfg ds = COk (r, part) /\ parse_directives ds = MOk dl /\
+    postings_syntactic_b dl = true /\ account_ok a = true /\ is_AL a = true /\
+    In c (ValuationSpec.held_commodities (flat_postings dl) a) /\ In T (end_dates part) /\
+    ValuationSpec.price_on dl V c T = None /\
+    ValuationSpec.mtm_row cfg dl a
+      = Some [(Some (mkDec 1148148180 (-9)), 3%Z); (Some (mkDec 1748148183 (-9)), 7%Z); (Some (mkDec 4148148159 (-9)), 9%Z)].
+Proof.
+  destruct (balance_report (exr_cfg true) exd_journal) as [[r part]| |] eqn:Er; [|vm_compute in Er; discriminate..].
+  destruct (parse_directives exd_journal) as [dl| |] eqn:Ep; [|vm_compute in Ep; discriminate..].
+  exists (exr_cfg true), exd_journal, r, part, exr_V, dl, exr_a, exd_z, (exr_d0 + 3)%Z.
+  split; [reflexivity|]. split; [exact Er|]. split; [exact Ep|].
+  vm_compute in Er. injection Er as <- <-. vm_compute in Ep. injection Ep as <-.
+  vm_compute. repeat split; try discriminate; auto.
+Qed.
+Print Assumptions C03_held_commodity_has_price_refuted.
+
+(* ================================================================== the verdict of the runtime check on aggregated rows *)
+(* Vocabulary: Spec/ValuationMappedSpec.v (what Extract/drv/drv_c03.ml evaluates on a row of the
+   binary's report that --mapping / --remap aggregate or move): target_of (the row an account is
+   shown on), mtm_row_mapped cfg dl b = (sources_of cfg dl b, per column (expected_sum, bound_sum)):
+   the sum over the accounts that land on b of ValuationSpec.mtm_expected and of
+   ValuationSpec.step_bound.  Proofs/MarkToMarketMappedVerdict.v. *)
+From Knut Require Import Spec.ValuationMappedSpec Proofs.MarkToMarketMappedVerdict.
+
+(* a cell without a booking of a non-zero quantity: from a state in which its position is zero, the
+   Valuate stage keeps the position at zero and the values it posts on the cell add up to zero (a
+   zero position is never revalued; a zero quantity is valued at zero) -- the instance "quantity is
+   zero, no error" of the invariant behind C03_delta *)
+Theorem C03_unbooked_cell : forall v a c ds s s' ds',
+  account_ok a = true -> is_AL a = true -> c <> v ->
+  Forall posting_in_ok (MarkToMarketSpec.days_postings ds) ->
+  Forall (fun p => cellb a c p = true -> is_zero (p_qty p) = true) (MarkToMarketSpec.days_postings ds) ->
+  good a c PZ (v_qty s) -> posq a c (v_qty s) == 0 ->
+  process_days (valuate_proc v) s ds = ROk (s', ds') ->
+  good a c PZ (v_qty s') /\ posq a c (v_qty s') == 0 /\ cell_value a c (MarkToMarketSpec.days_postings ds') == 0.
+Proof. exact unbooked_delta. Qed.
+Print Assumptions C03_unbooked_cell.
+
+(* C03_windowed_mapped with every aggregated account charged for its own commodities only: coms is
+   any duplicate-free list of commodities that pass --commodity and contains what the aggregated
+   accounts hold (the commodity keys of the row); an account contributes nothing under a commodity
+   it has no booking in (C03_unbooked_cell), so its market value and its steps are those over its
+   own held commodities *)
+Theorem C03_windowed_mapped_held : forall cfg ds r part V,
+  bc_valuation cfg = Some V ->
+  balance_report cfg ds = COk (r, part) ->
+  exists dl,
+    parse_directives ds = MOk dl /\
+    new_partition (clip (mkPeriod (bc_from cfg) (bc_to cfg)) (journal_period dl)) (bc_interval cfg) (bc_last cfg) = POk part /\
+    (postings_syntactic dl ->
+     forall b srcs col coms, account_ok b = true -> is_AL b = true -> row_sources cfg dl b srcs ->
+       NoDup coms -> (forall c, In c coms -> com_pass cfg c = true) ->
+       (forall a, In a srcs -> incl (ValuationSpec.held_commodities (flat_postings dl) a) coms) ->
+       (p_start (span part) <= p_end (span part))%Z -> In col (end_dates part) ->
+       Qabs (row_value b part col r coms
+             - (mv_held_sum dl V srcs col - mv_held_sum dl V srcs (p_start (span part) - 1)))
+         <= inject_Z (steps_held_sum dl V srcs (p_start (span part)) col) * (1 # 100000000)).
+Proof. exact windowed_row_mapped_held. Qed.
+Print Assumptions C03_windowed_mapped_held.
+
+(* THE MODEL MEETS THE CHECK'S VERDICT ON EVERY ROW OF ASSET/LIABILITY TYPE, whatever --mapping and
+   --remap do (no shows_account condition; an account shown as itself is the case srcs = [b], where
+   mtm_row_mapped is mtm_row up to adding zero): the entry of mtm_row_mapped exists, lists the
+   accounts the row adds up (row_sources), has one entry per column, EVERY entry carries an
+   expectation (C03_expected_defined), and the model's row lies within the summed allowance of the
+   summed expectation -- as rationals and as the boolean within_bound the check evaluates. *)
+Theorem C03_model_meets_spec_mapped : forall cfg ds r part V,
+  bc_valuation cfg = Some V ->
+  balance_report cfg ds = COk (r, part) ->
+  exists dl,
+    parse_directives ds = MOk dl /\
+    (postings_syntactic dl ->
+     forall b, account_ok b = true -> is_AL b = true ->
+       (p_start (span part) <= p_end (span part))%Z ->
+       exists srcs exps,
+         mtm_row_mapped cfg dl b = Some (srcs, exps) /\ row_sources cfg dl b srcs /\
+         length exps = length (end_dates part) /\
+         forall j col eo n, nth_error (end_dates part) j = Some col -> nth_error exps j = Some (eo, n) ->
+           exists e, eo = Some e /\
+           forall coms, NoDup coms -> (forall c, In c coms -> com_pass cfg c = true) ->
+             (forall a, In a srcs -> incl (ValuationSpec.held_commodities (flat_postings dl) a) coms) ->
+             Qabs (row_value b part col r coms - dvalue e) <= inject_Z n * (1 # 100000000) /\
+             forall o, dvalue o == row_value b part col r coms -> ValuationSpec.within_bound o e n = true).
+Proof. exact model_meets_spec_mapped. Qed.
+Print Assumptions C03_model_meets_spec_mapped.
+
+(* The report of C03_example_mapped_row (--mapping 2, --close): both accounts are shown on Assets:B
+   (target_of); mtm_row_mapped of that row lists them and gives the expectations of
+   C03_example_model_meets_spec with the allowances 4, 7, 9 (= 2 + 2, 4 + 3, 5 + 4: the two
+   accounts' step_bound); the row the model shows lies within them; the accounts themselves are not
+   rows: nothing lands on Assets:B:X. *)
+Example C03_example_mapped_verdict :
+  match balance_report exm_cfg exm_journal, parse_directives exm_journal with
+  | COk (r, part), MOk dl =>
+    postings_syntactic_b dl = true /\ account_ok exm_b = true /\ is_AL exm_b = true /\
+    target_of exm_cfg exm_x = Some exm_b /\ target_of exm_cfg exm_y = Some exm_b /\
+    mtm_row_mapped exm_cfg dl exm_b
+      = Some ([exm_x; exm_y],
+              [(Some (mkDec 1148148180 (-9)), 4%Z); (Some (mkDec 1748148183 (-9)), 7%Z); (Some (mkDec 4148148159 (-9)), 9%Z)]) /\
+    map (fun col => Qred (row_value exm_b part col r [exr_c])) (end_dates part)
+      = [57407409 # 50000000; 87407409 # 50000000; 82962963 # 20000000] /\
+    ValuationSpec.within_bound (mkDec 414814815 (-8)) (mkDec 4148148159 (-9)) 9 = true /\
+    fst (match mtm_row_mapped exm_cfg dl exm_x with Some x => x | None => ([exm_x], []) end) = []
   | _, _ => False
   end.
 Proof. vm_compute. repeat split; discriminate. Qed.
